@@ -96,6 +96,9 @@ ANCHORS = [
     ("PLANNER_FORCES_UPDATE_OVER_DEST_LINK", "src/sync/mod.rs", r"(matches!\(task\.action, SyncAction::Skip \| SyncAction::Create\)\s*&& task\.source\.as_ref\(\)\.is_some_and\(\|f\| !f\.is_symlink\)\s*&& matches!\(self\.transport\.read_link\(&task\.dest_path\)\.await, Ok\(Some\(_\)\)\))", "flag"),
     # C18: persistence mechanisms
     ("CHECKSUMDB_LOOKUP_GUARDS", "src/sync/checksumdb.rs", r"SELECT checksum_type, checksum FROM checksums\s*WHERE ([^\"]*)\"", "str_ws"),
+    # what the end-of-run block files under the SOURCE key (path, mtime, size): the checksum of which file?
+    ("CHECKSUMDB_STORE_HASHED_FILE", "src/sync/mod.rs",
+     r"if let Ok\(checksum\) = verifier\.compute_file_checksum\(([^)]*)\) \{\s*// Store in database\s*if let Err\(e\) =\s*db\.store_checksum\(&file\.path, file\.modified, file\.size, &checksum\)", "str"),
     ("RESUME_SAVE_CALLS_IN_ENGINE", "src/sync/mod.rs", r"pub async fn sync\(&self[\s\S]*?\n    \}\n", "count:state\\.save\\(|resume_state\\.save\\(|\\.save\\(destination\\)\\s*\\{?[^\\n]*resume"),
     ("DIRCACHE_ROOT_KEY", "src/sync/mod.rs", r'let source_path = PathBuf::from\("([^"]*)"\);\s*!cache\.needs_rescan\(&source_path, source_mtime\)', "str"),
     # --- C01 byte-level transfer paths (SyModel/Transfer/BlockCompare.lean) ---
